@@ -141,7 +141,9 @@ class HamiltonianChain(MarkovChain):
             steps_taken += n_steps
             p = self.posterior(t) * self.inv_temp
             H = self.kinetic_energy(r) - p
-            accept_prob = exp(H0 - H)
+            # a trajectory which has diverged can overflow the energy calculation
+            # (giving an infinite or undefined value) - such a proposal is rejected
+            accept_prob = exp(H0 - H) if isfinite(H) else 0.0
 
             self.ES.add_probability(
                 min(accept_prob, 1) if isfinite(accept_prob) else 0.0
